@@ -139,7 +139,7 @@ def run(rep, tier, only=None):
     for lang in LANGS:
         for pi, pos in enumerate(POSITIONS):
             for wi, w in enumerate(ws):
-                if tier == "quick" and len(w) >= 2 and (wi + pi + sd) % 2 and "n" not in w[1:-1] and w not in ("qqq", "sf"):
+                if tier == "quick" and len(w) >= 2 and (wi + pi + sd) % 2 and "n" not in w[1:-1] and w not in ("qqq", "sf") and w not in extra:
                     continue
                 cases.append((lang, pos, (w,)))
             # two doc attributes on one item
